@@ -257,7 +257,13 @@ func (w *world) outcome(host string, at time.Time, status int, healthyBefore boo
 			st.cum, st.streak = 0, 0
 			w.nEject++
 		} else if !healthyBefore {
-			st.maybe = append(st.maybe, at) // cannot be observed: it was unhealthy already
+			// cannot be observed: it was unhealthy already. If the implementation ejected (again)
+			// here, its count restarted, as it does for the observable cumulative ejections above; if
+			// not, it did not. Both are within the statement, so neither may be assumed: the
+			// in-a-row count that R2 demands an ejection for restarts (weaker demand), the cumulative
+			// count that R1 tolerates an ejection for does not (weaker prohibition).
+			st.maybe = append(st.maybe, at)
+			st.streak = 0
 		}
 	default:
 		if healthyBefore && !r.list {
@@ -312,15 +318,16 @@ func genCfg(rt *rapid.T) hcfg {
 		Threshold: rapid.IntRange(1, 4).Draw(rt, "threshold"), WindowS: rapid.IntRange(1, 5).Draw(rt, "window"),
 		Passive: rapid.IntRange(0, 3).Draw(rt, "passive") > 0, Active: rapid.Bool().Draw(rt, "active")}
 	if c.Active {
-		c.IntervalS = rapid.IntRange(2, 5).Draw(rt, "interval")
-		c.TimeoutS = rapid.IntRange(1, c.IntervalS-1).Draw(rt, "timeout")
+		// probe rounds shorter and (much) longer than the unhealthy window
+		c.IntervalS = rapid.SampledFrom([]int{2, 3, 4, 5, 5, 30, 600}).Draw(rt, "interval")
+		c.TimeoutS = rapid.IntRange(1, min(c.IntervalS-1, 5)).Draw(rt, "timeout")
 	}
 	return c
 }
 
 func TestC04HealthStateMachine(t *testing.T) {
 	sub := lab.Sub("health-state-machine", "rapid histories over per-backend events {set proxied behaviour good/5xx/unreachable, set probe ok/fail/held, request, advance (< window, > window, around probe interval), release held probe ok/fail, recovery burst} "+
-		"plus long-running requests whose (good/5xx) response arrives later, and backends sending a 103 interim response before the final status; against the real balancer in virtual time: 5 strategies x threshold 1-4 x window 1-5 s x passive on/off x active on/off (interval 2-5 s, Helios's own ticker) x 1-3 backends; monitor R1 only-after-threshold, R2 must-eject-after-threshold-in-a-row, R3 failed probe ejects / nothing else does, "+
+		"plus long-running requests whose (good/5xx) response arrives later, and backends sending a 103 interim response before the final status; against the real balancer in virtual time: 5 strategies x threshold 1-4 x window 1-5 s x passive on/off x active on/off (interval 2-5 s, 30 s or 600 s, i.e. shorter and much longer than the window; Helios's own ticker) x 1-3 backends; monitor R1 only-after-threshold, R2 must-eject-after-threshold-in-a-row, R3 failed probe ejects / nothing else does, "+
 		"R4 no traffic inside the window (incl. late probe results), R5 traffic returns after the window under every strategy, R6 ejected never reported healthy by ListBackends, /health, /metrics; "+
 		"non-trivial = at least one ejection and a request issued after its window had elapsed")
 	sub.NontrivialFloor(0.25)
@@ -449,8 +456,9 @@ func TestC04HealthStateMachine(t *testing.T) {
 						viol = w.dispatched(host, now)
 					case k < wReq:
 						cl := rapid.IntRange(0, 30).Draw(rt, "client")
-						w.hist = append(w.hist, fmt.Sprintf("req(c%d)", cl))
-						_, viol = w.request(clientAddr(cl))
+						var h string
+						h, viol = w.request(clientAddr(cl))
+						w.hist = append(w.hist, fmt.Sprintf("req(c%d)->b%d", cl, indexOfHost(h, c.N)))
 					case k < wReq+wSet:
 						i := rapid.IntRange(0, c.N-1).Draw(rt, "backend")
 						b := rapid.SampledFrom(behaviours).Draw(rt, "behaviour")
@@ -534,8 +542,7 @@ func TestC04HealthStateMachine(t *testing.T) {
 	})
 }
 
-// recovery (R5): pick a backend whose last window has elapsed (plus one probe round when active
-// checks are on), make it answer well, and send a covering burst; it must receive traffic.
+// recovery (R5): pick a backend whose last window has elapsed, make it answer well, and send a covering burst; it must receive traffic.
 func (w *world) recoveryDue(now time.Time) []int {
 	var out []int
 	for i := 0; i < w.c.N; i++ {
@@ -544,11 +551,10 @@ func (w *world) recoveryDue(now time.Time) []int {
 		if !ok {
 			continue
 		}
-		margin := time.Duration(0)
-		if w.c.Active {
-			margin = time.Duration(w.c.IntervalS+w.c.TimeoutS)*time.Second + time.Second
-		}
-		if now.After(end.Add(margin)) && w.fn.ParkedProbes(host) == 0 {
+		// no extra margin when active checks are on: the statement promises eligibility "once the
+		// window has elapsed ... whether or not active checks are enabled", not at the next probe
+		// tick. A probe that failed after the window is a new ejection and has moved `end`.
+		if now.After(end) && w.fn.ParkedProbes(host) == 0 {
 			out = append(out, i)
 		}
 	}
